@@ -715,7 +715,7 @@ macro_rules! refresh_err_contract {
     };
 }
 // @obl props=C08,C09,C10,C17 tier=quick class=bounded fn=core::primitives::refresh shape="identifier unknown to the master key, keep"
-refresh_err_contract!(refresh__err_unknown_id_keep, known = false, forged_sig = false, keep = true, E_TRACING, "C09/C17: a key whose identifier the master key does not know is refused (Tracing)");
+refresh_err_contract!(refresh__err_unknown_id_keep, known = false, forged_sig = false, keep = true, E_TRACING, "C08/C09/C17: a key whose identifier the master key does not know (not issued by THIS master key state, e.g. a backup taken earlier) is refused (Tracing)");
 // @obl props=C08,C09,C10 tier=quick class=bounded fn=core::primitives::refresh shape="signature present but the master key does not sign (foreign / altered signature)" loops="memcmp=34"
 refresh_err_contract!(refresh__err_bad_signature, known = true, forged_sig = true, keep = true, E_KEY, "C08/C09: a key whose signature does not match is refused (KeyError) before anything is modified");
 
